@@ -16,7 +16,7 @@ From Coq Require Import ZArith QArith NArith String Ascii Bool Lia List.
 Import ListNotations.
 From TP Require Import Base.PyVal Base.PyOps Base.PyOps2 Base.PyObj Base.PyOpsFields Base.PyOpsDeserialize
      Gen.DeserializeSrc Ser.Mappers Ser.MappersSrcProofs Ser.DeserializeSrcProofs.
-From TP Require Base.PyOpsVersioned Base.PyOpsDerive Fields.FieldAst Ser.Json Ser.Deserialize Ser.Serialize.
+From TP Require Base.PyOpsVersioned Base.PyOpsDerive Base.PyEq Fields.FieldAst Fields.SetChain Ser.Json Ser.Deserialize Ser.Serialize Ser.MappersProofs Ser.MappersRoundTripProofs.
 Local Open Scope Z_scope.
 
 Notation tbl := src_class_table.
@@ -724,3 +724,125 @@ Section Mapped.
       cbn [enc_dval enc_ival]. apply dsf_int.
   Qed.
 End Mapped.
+
+(* ------------------------------------------------------------------ the statement for Props/C07.v *)
+
+(* Deserializer(cls, mapper=override, camel_case_convert=flag) / deserialize_structure(cls, doc, mapper=override,
+   camel_case_convert=flag, keep_undefined=False): for EVERY class of the model with a rename-only mapper list,
+   explicit mapper, flag and document on which the C07 model's deserializer returns fields, the generated
+   deserialize_structure_internal returns the instance carrying exactly those fields, every nesting level under the
+   nested mapper construct_fields_map looks up for it.  The mapper-off configuration is the special case of a class
+   that declares no mapper, override None, flag off (the aggregated mapper is then the no-op one). *)
+Theorem src_deserialize_mapped re_match e ens h ext :
+  ext_agrees re_match e ens ext -> ext_struct_agrees ext -> ext_mapped_agrees ext ->
+  h (s2p "Structure") (s2p "failing_fast()") = Some (PBool true) ->
+  (exists v, h (s2p "TypedPyDefaults") (s2p "additional_properties_default") = Some v) ->
+  forall c (override : option amap) (camelflag : bool) doc x fuel nm ssv,
+    (8 * cdepth c <= fuel)%nat ->
+    mapped_cov c override camelflag = true ->
+    deser_struct c override camelflag doc = Ok x ->
+    r_deserialize_structure_internal (src_full_fix h ext fuel) (menc_class c) (enc_dval (DDict doc)) nm (PBool false)
+      (enc_override override) (PBool false) (PBool camelflag) (PBool false) ssv =
+    Ok (enc_ival (IStruct x) (Some (KRef, c))).
+Proof.
+  intros H1 H2 H3 Hff Hapd c override camelflag doc x fuel nm ssv Hfuel Hcov Hm.
+  assert (Ho : enc_override override = enc_sub (option_map Sub override)).
+  { destruct override as [d|]; [|reflexivity]. cbn [enc_override option_map enc_sub]. rewrite enc_mval_sub. reflexivity. }
+  assert (Hs : sub_override_of (option_map Sub override) = override) by (destruct override; reflexivity).
+  rewrite Ho.
+  apply (src_deserialize_mapped_ok re_match e ens h ext H1 H2 H3 Hff Hapd c fuel (option_map Sub override) camelflag doc x nm ssv
+                                   Hfuel); [destruct override; reflexivity | rewrite Hs; exact Hcov | rewrite Hs; exact Hm].
+Qed.
+
+(* ------------------------------------------------------------------ examples *)
+
+(* an oracle for a finite set of classes: the leaf methods of the Integer fields, deep_get on plain keys,
+   raise_errs_if_needed, aggregate_deserialization_mappers through the model (the class object and the nested mapper
+   are recognised by comparison with their encodings), the constructor *)
+Fixpoint dec_mval (n : nat) (v : pyval) : option mval :=
+  match n with
+  | O => None
+  | S n' =>
+      match v with
+      | PStr s => Some (Key s)
+      | POther _ _ => Some DoNot
+      | PDict kv =>
+          (fix go (l : list (pyval * pyval)) : option mval :=
+             match l with
+             | [] => Some (Sub [])
+             | (PStr k, w) :: t =>
+                 match dec_mval n' w, go t with
+                 | Some x, Some (Sub r) => Some (Sub ((k, x) :: r))
+                 | _, _ => None
+                 end
+             | _ => None
+             end) kv
+      | _ => None
+      end
+  end.
+
+Definition mapped_ext (cs : list classdef) : extern :=
+  fun name args kw =>
+    if pystr_eqb name (s2p "aggregate_deserialization_mappers") then
+      match args with
+      | [cobj; mp; PBool flag] =>
+          match find (fun c => PyEq.pyval_eqb (menc_class c) cobj) cs with
+          | Some c =>
+              match mp with
+              | PNone => enc_res (aggregate false c None flag)
+              | _ => match dec_mval 20 mp with
+                     | Some (Sub m) => enc_res (aggregate false c (Some m) flag)
+                     | _ => Raise Unmodelled
+                     end
+              end
+          | None => Raise Unmodelled
+          end
+      | _ => Raise Unmodelled
+      end
+    else if pystr_eqb name call_name then
+      match args with
+      | [PStruct _ _] => Ok (PStruct inst_cls kw)
+      | _ => Raise Unmodelled
+      end
+    else full_ext (fun _ _ => true) [] [] name args kw.
+
+Definition mx_heap : heap := class_heap [] {| Deserialize.df_ignore_invalid := false; Deserialize.df_compact := false |}.
+Definition mx_src (cs : list classdef) (c : classdef) (o : option amap) (flag : bool) (doc : list (pystr * dval)) : res pyval :=
+  r_deserialize_structure_internal (src_full_fix mx_heap (mapped_ext cs) 40) (menc_class c) (enc_dval (DDict doc))
+    PNone (PBool false) (enc_override o) (PBool false) (PBool flag) (PBool false) (PBool false).
+
+Local Open Scope N_scope.
+(* Outer {a: Left, b: Right} under {a: b, b: c} (the classes of C07_sub_lookup_order_matters): field b, whose NAME is
+   the key of its sibling a.  Document {"b": {"p": 1, "q": 2}, "c": {"q": 3, "p": 4}}: a is read under "b" with
+   Left's mapper, b under "c" with Right's *)
+Definition mx_doc : list (pystr * dval) :=
+  [(MappersProofs.sb, DDict [(MappersRoundTripProofs.w_p, DScal 1%Z); (MappersRoundTripProofs.w_q, DScal 2%Z)]);
+   (MappersProofs.sc, DDict [(MappersRoundTripProofs.w_q, DScal 3%Z); (MappersRoundTripProofs.w_p, DScal 4%Z)])].
+Definition mx_classes := [MappersRoundTripProofs.cOuter; MappersRoundTripProofs.cLeft; MappersRoundTripProofs.cRight].
+
+Example mapped_nonvacuous :
+  mapped_cov MappersRoundTripProofs.cOuter None false = true /\
+  (exists x, deser_struct MappersRoundTripProofs.cOuter None false mx_doc = Ok x /\
+             x = [(MappersProofs.sa, IStruct [(MappersRoundTripProofs.w_u, IScal 1%Z); (MappersRoundTripProofs.w_v, IScal 2%Z)]);
+                  (MappersProofs.sb, IStruct [(MappersRoundTripProofs.w_u, IScal 3%Z); (MappersRoundTripProofs.w_v, IScal 4%Z)])] /\
+             mx_src mx_classes MappersRoundTripProofs.cOuter None false mx_doc =
+             Ok (enc_ival (IStruct x) (Some (KRef, MappersRoundTripProofs.cOuter)))).
+Proof.
+  split; [vm_compute; reflexivity|]. eexists. split; [vm_compute; reflexivity|]. split; vm_compute; reflexivity.
+Qed.
+
+(* where the model fails, the source fails too but not always with the model's class: a falsy ill-shaped value is
+   collected by construct_fields_map and reported as InvalidStructureErr (the model: TypeError); the C07 correspondence
+   compares exception classes up to TypeError / ValueError *)
+Example mapped_error_class_differs :
+  deser_struct MappersRoundTripProofs.cLeft None false [(MappersRoundTripProofs.w_p, DList [])] = Raise TypeError /\
+  mx_src mx_classes MappersRoundTripProofs.cLeft None false [(MappersRoundTripProofs.w_p, DList [])] = Raise InvalidStructureErr.
+Proof. split; vm_compute; reflexivity. Qed.
+
+Print Assumptions mcfm_step.
+Print Assumptions mcfm_loop_ok.
+Print Assumptions mdsi_ok.
+Print Assumptions src_deserialize_mapped_ok.
+Print Assumptions src_deserialize_mapped.
+Print Assumptions mapped_nonvacuous.
+Print Assumptions mapped_error_class_differs.
